@@ -425,6 +425,7 @@ pub fn accepts(prop: &str, v: &Viol, ops: &[OpRec]) -> bool {
             in_list(&[
                 "disconnect_while_handle_alive",
                 "send_closed_before_drained",
+                "end_before_drained",
                 "send_after_disconnect",
                 "recv_after_disconnect",
                 "recv_after_failed_send",
@@ -438,7 +439,7 @@ pub fn accepts(prop: &str, v: &Viol, ops: &[OpRec]) -> bool {
                 || in_list(&["quiescent_try_send_mismatch", "quiescent_try_recv_mismatch", "quiescent_drain_mismatch"])
         }
         "C14" => {
-            in_list(&["try_waited", "realtime_unbounded", "realtime_done_without_lock"])
+            in_list(&["try_waited", "realtime_unbounded", "realtime_done_without_lock", "waited_inside_critical_section"])
                 || (in_list(LEDGER_ALL) && opk.map(|o| o.k.is_try()).unwrap_or(false))
                 || (p == "stuck_illegit" && opk.map(|o| o.k.is_try()).unwrap_or(false))
                 || in_list(&["quiescent_try_send_mismatch", "quiescent_try_recv_mismatch", "quiescent_observer_mismatch"])
@@ -451,10 +452,12 @@ pub fn accepts(prop: &str, v: &Viol, ops: &[OpRec]) -> bool {
             "stale_waker",
             "no_panic_after_done",
             "stream_resumed_after_end",
+            "end_before_drained",
             "dup_recv",
             "corrupt_value",
             "drop_of_unknown_value",
-        ]) || (p == "fifo" && opk.map(|o| o.k == K::StreamNext).unwrap_or(false)),
+        ]) || (p == "fifo" && opk.map(|o| o.k == K::StreamNext).unwrap_or(false))
+            || (p == "livelock" && v.detail.contains("inside a poll")),
         "C19" => in_list(&[
             "drain_prefix_or_error_append",
             "drain_count_mismatch",
